@@ -688,9 +688,21 @@ func (e *Engine) md5Of(bs []*Term) []*Term {
 		}
 		return out
 	}
-	// uninterpreted function per input length, one result byte each (keeps every term <= 64 bits)
+	// one uninterpreted function per input length: BV(8N) -> BV128, result bytes by extraction
+	if len(bs) == 0 {
+		d := md5.Sum(nil)
+		for i := range out {
+			out[i] = tm.BV(uint64(d[i]), 8)
+		}
+		return out
+	}
+	arg := bs[0]
+	for _, b := range bs[1:] {
+		arg = tm.Concat(arg, b)
+	}
+	digest := tm.UF(fmt.Sprintf("md5_%d", len(bs)), 128, arg)
 	for i := range out {
-		out[i] = tm.UF(fmt.Sprintf("md5_%d_b%d", len(bs), i), 8, bs...)
+		out[i] = tm.Extract(digest, 127-8*i, 120-8*i)
 	}
 	return out
 }
